@@ -51,6 +51,10 @@ inline Py_ALWAYS_INLINE std::string PyRepr(const std::string& string) {
 
 // The maximum size of the type cache.
 constexpr py::ssize_t MAX_TYPE_CACHE_SIZE = 4096;
+#ifdef OPTREE_VERIF_HOOKS
+// Verification build only: the cap becomes a run-time knob (default unchanged).
+#define MAX_TYPE_CACHE_SIZE (::optree_verif::TypeCacheCap())
+#endif
 
 #define PyNoneTypeObject                                                                           \
     (py::reinterpret_borrow<py::object>(reinterpret_cast<PyObject*>(Py_TYPE(Py_None))))
@@ -259,6 +263,9 @@ inline bool IsNamedTupleClass(const py::handle& type) {
 
     static auto cache = std::unordered_map<py::handle, bool>{};
     static read_write_mutex mutex{};
+#ifdef OPTREE_VERIF_HOOKS
+    OPTREE_VERIF_REGISTER_TYPE_CACHE("namedtuple", cache);
+#endif
 
     {
         const scoped_read_lock_guard lock{mutex};
@@ -362,6 +369,9 @@ inline bool IsStructSequenceClass(const py::handle& type) {
 
     static auto cache = std::unordered_map<py::handle, bool>{};
     static read_write_mutex mutex{};
+#ifdef OPTREE_VERIF_HOOKS
+    OPTREE_VERIF_REGISTER_TYPE_CACHE("structseq", cache);
+#endif
 
     {
         const scoped_read_lock_guard lock{mutex};
@@ -445,6 +455,9 @@ inline py::tuple StructSequenceGetFields(const py::handle& object) {
 
     static auto cache = std::unordered_map<py::handle, py::handle>{};
     static read_write_mutex mutex{};
+#ifdef OPTREE_VERIF_HOOKS
+    OPTREE_VERIF_REGISTER_TYPE_CACHE("structseq_fields", cache);
+#endif
 
     {
         const scoped_read_lock_guard lock{mutex};
